@@ -58,6 +58,19 @@ def run(tier, seed):
                     ok = got is node
                 except Exception as e:  # noqa: BLE001
                     got, ok = f"raises {type(e).__name__}: {e}", False
+                if ok and not ue:
+                    # the module-level entry point with its DEFAULT switches (no percent decoding) is the same resolution
+                    import jsonpath.pointer as _pm
+
+                    try:
+                        via = _pm.resolve(text, d) if "\\" not in text else _pm.resolve(text, d, unicode_escape=False)
+                        ok2 = via is node
+                    except Exception as e:  # noqa: BLE001
+                        via, ok2 = f"raises {type(e).__name__}: {e}", False
+                    if not ok2:
+                        rec.fail(f"module-resolve:{text}", f"jsonpath.pointer.resolve({text!r}, doc) -> {via!r}, JSONPointer({text!r}).resolve(doc) -> the node at {parts!r} of {d!r}",
+                                 f"import jsonpath.pointer as pm\nfrom jsonpath import JSONPointer\ndoc = {d!r}\nprint(pm.resolve({text!r}, doc), JSONPointer({text!r}).resolve(doc)); sys.exit(2)")
+                        continue
                 if ok:
                     rec.ok((text, ue) if len(parts) > 1 else None, {"pointer": text, "unicode_escape": ue} if len(parts) > 1 else None)
                 else:
